@@ -243,13 +243,21 @@ def axioms_allowed(ax):
 
 # ----------------------------------------------------------------------------- H: harness
 def build_harness(extra_tags=""):
+    """go build -tags verif of harness/cmd/... against REPO's working tree (replace directive)."""
     with Lock(os.path.join(HARNESS, ".lock")):
         os.makedirs(os.path.join(HARNESS, "bin"), exist_ok=True)
-        shutil.copyfile(os.path.join(REPO, "go.sum"), os.path.join(HARNESS, "go.sum"))
-        gm = os.path.join(HARNESS, "go.mod")
-        before = open(gm).read()
         tags = "verif" + ("," + extra_tags if extra_tags else "")
-        rc, out, dt = sh(["go", "build", "-tags", tags, "-o", "bin/", "./cmd/..."], cwd=HARNESS, env=goenv(), timeout=1500)
+        gm = os.path.join(HARNESS, "go.mod")
+        cmd = ["go", "build", "-tags", tags, "-o", "bin/", "./cmd/..."]
+        if os.path.realpath(REPO) == "/repo":
+            shutil.copyfile(os.path.join(REPO, "go.sum"), os.path.join(HARNESS, "go.sum"))
+        else:
+            # VERIF_REPO points at a scratch worktree: build with an alternative go.mod
+            alt = os.path.join(HARNESS, "alt.mod")
+            open(alt, "w").write(open(gm).read().replace("=> /repo", "=> " + os.path.realpath(REPO)))
+            shutil.copyfile(os.path.join(REPO, "go.sum"), os.path.join(HARNESS, "alt.sum"))
+            cmd = ["go", "build", "-modfile", alt, "-tags", tags, "-o", "bin/", "./cmd/..."]
+        rc, out, dt = sh(cmd, cwd=HARNESS, env=goenv(), timeout=1500)
         return rc == 0, out
 
 
